@@ -334,8 +334,11 @@ def run_check(prop, tier, jobs=None, seed=None, out=sys.stdout):
             key = (f["kind"], f["classifier"])
             if per_group[key] >= 3 or len(reported) >= MAX_REPORTED:
                 continue
+            path = write_replay(prop, tier, f, rdir)
+            if path in reported:        # the same case reached in two shards
+                continue
             per_group[key] += 1
-            reported.append(write_replay(prop, tier, f, rdir))
+            reported.append(path)
         # confirm each reported violation in a fresh process (replay twice, identical verdict)
         diverged = []
         for path in reported:
